@@ -427,6 +427,8 @@ pub open spec fn sharded_frame(old: World, fin: World, root: PathV, n: usize, na
                 ('C12 C11 C01 C19:primary-candidate-is-probed-first-then-the-secondary',
                  'r.is_ok() && r.unwrap().is_some() ==> !r.unwrap().unwrap().can_write() && r.unwrap().unwrap().offset() == 0 && ((old(w).files.contains_key(%s) && r.unwrap().unwrap().ino() == old(w).files[%s]) '
                  '|| (!old(w).files.contains_key(%s) && old(w).files.contains_key(%s) && r.unwrap().unwrap().ino() == old(w).files[%s]))' % (P1, P1, P1, P2, P2)),
+                ('C12 C20:the-secondary-candidate-is-opened-only-when-the-primary-misses',
+                 'r.is_ok() && old(w).files.contains_key(%s) ==> final(w).opens <= old(w).opens + 1' % P1),
                 ('C12 C11 C05 C18:miss-means-absent-from-both-candidates',
                  'r.is_ok() && r.unwrap().is_none() ==> !old(w).files.contains_key(%s) && !old(w).files.contains_key(%s)' % (P1, P2)),
                 ('C11 C18:present-entry-is-found', 'r.is_ok() && (old(w).files.contains_key(%s) || old(w).files.contains_key(%s)) ==> r.unwrap().is_some()' % (P1, P2)),
